@@ -21,7 +21,7 @@ from concurrent.futures import ThreadPoolExecutor
 VERIF = os.path.dirname(os.path.dirname(os.path.abspath(__file__)))
 COQ = os.path.join(VERIF, "coq")
 BUILD = os.path.join(VERIF, "build")
-REPO = "/repo"
+REPO = os.environ.get("VERIF_REPO", "/repo")   # default: the real tree; a scratch worktree for mutation self-tests
 GOENV = dict(os.environ, GOFLAGS="-mod=mod", GOPROXY="off", GOSUMDB="off",
              GOTOOLCHAIN="local", CGO_ENABLED="0")
 
@@ -129,7 +129,20 @@ def regenerate():
 
 # ------------------------------------------------------------------------ coq
 
+def ensure_coqproject():
+    """_CoqProject is generated: lib/ (-Q Verif), gen/ (-Q VerifGen, translator outputs),
+    and one logical root per property directory C??/ (-Q Cxx Cxx)."""
+    dirs = sorted(d for d in os.listdir(COQ) if re.fullmatch(r"C\d\d", d) and os.path.isdir(os.path.join(COQ, d)))
+    lines = ["-Q lib Verif", "-Q gen VerifGen"] + ["-Q %s %s" % (d, d) for d in dirs]
+    lines += sorted("lib/" + f for f in os.listdir(os.path.join(COQ, "lib")) if f.endswith(".v"))
+    lines += sorted(j["out"] for j in json.load(open(os.path.join(VERIF, "tools", "translators.json"))))
+    for d in dirs:
+        lines += sorted(d + "/" + f for f in os.listdir(os.path.join(COQ, d)) if f.endswith(".v") and not f.startswith("."))
+    write_if_changed(os.path.join(COQ, "_CoqProject"), "\n".join(lines) + "\n")
+
+
 def ensure_makefile():
+    ensure_coqproject()
     mk = os.path.join(COQ, "Makefile")
     cp = os.path.join(COQ, "_CoqProject")
     if not os.path.exists(mk) or os.path.getmtime(mk) < os.path.getmtime(cp):
@@ -198,10 +211,21 @@ def compile_props(props_v):
 
 # -------------------------------------------------------------------- harness
 
-def build_harness():
+def harness_bin(pkg):
+    return os.path.join(BUILD, "bin", "h_" + pkg)
+
+
+def build_harness(pkg):
+    """Each property has its own main package harness/<pkg> (shared code in harness/hlib)."""
     h = os.path.join(VERIF, "harness")
-    rc, o, _ = run(["cp", os.path.join(REPO, "go.sum"), os.path.join(h, "go.sum")])
-    return run(["go", "build", "-tags", "verif", "-o", os.path.join(BUILD, "bin", "harness"), "."],
+    write_if_changed(os.path.join(h, "go.sum"), open(os.path.join(REPO, "go.sum")).read())
+    extra = []
+    if REPO != "/repo":
+        alt = os.path.join(BUILD, "go.alt.mod")
+        write_if_changed(alt, open(os.path.join(h, "go.mod")).read().replace("/repo", REPO))
+        write_if_changed(os.path.join(BUILD, "go.alt.sum"), open(os.path.join(REPO, "go.sum")).read())
+        extra = ["-modfile=" + alt]
+    return run(["go", "build"] + extra + ["-tags", "verif", "-o", harness_bin(pkg), "./" + pkg],
                cwd=h, env=GOENV, timeout=1800)
 
 
@@ -279,7 +303,7 @@ def main(argv):
         make_ok = rc == 0
         if not make_ok:
             problems.append("coq build failed: " + o.strip()[-1500:])
-        hrc, ho, hdt = build_harness() if cfg.get("harness") else (0, "", 0)
+    hrc, ho, hdt = build_harness(cfg["harness"]) if cfg.get("harness") else (0, "", 0)
     thms, pas = props_obligations(props_v)
     assumptions = {}
     discharged = 0
@@ -313,7 +337,7 @@ def main(argv):
             for f in glob.glob(os.path.join(rundir, "*")):
                 if os.path.isfile(f):
                     os.remove(f)
-            cmd = [os.path.join(BUILD, "bin", "harness"), cfg["harness"], "--seed", str(seed),
+            cmd = [harness_bin(cfg["harness"]), "--seed", str(seed),
                    "--tier", tier, "--out", rundir]
             if replay:
                 cmd += ["--replay", replay]
@@ -361,7 +385,7 @@ def main(argv):
         if cfg.get("harness") and hrc == 0 and tier != "thorough" and not replay:
             sdir = os.path.join(BUILD, "run", prop + "-search")
             os.makedirs(sdir, exist_ok=True)
-            rc, o, dt = run([os.path.join(BUILD, "bin", "harness"), cfg["harness"], "--seed", str(seed + 7919),
+            rc, o, dt = run([harness_bin(cfg["harness"]), "--seed", str(seed + 7919),
                              "--tier", "thorough", "--out", sdir], cwd=sdir, env=GOENV,
                             timeout=cfg.get("harness_timeout", 3000))
             if rc == 0:
